@@ -106,6 +106,7 @@ type c09obs struct {
 	AtoMicro  int64 // ato in exact microseconds (request guard)
 	AtoInf    bool
 	Outside   bool  // the harness's own statement: not (0 <= ato < segment duration), chunked mode has no chunk duration
+	Edge      bool  // inside the range but the offset rounded to ms is the segment duration
 	GuardOK   bool  // ato >= 0 && ato*1000 < float64(SegmentDurMS), the Go float64 expression of the handler
 	AvailMS   int64 // advertised end of the segment on the wall clock
 	Sleeps    bool
@@ -303,6 +304,7 @@ func atoMicro(ato string) (int64, bool) {
 // SegmentDurMS and whose body answers http.StatusBadRequest. The model is evaluated with this flag;
 // a guard of another shape shows up as a correspondence mismatch.
 var guardDetected bool
+var guardRounded bool // the guard compares math.Round(ato*1000) (f0e7b4c) instead of ato*1000 (6ca1ef6)
 var guardHow string
 
 func detectChunkGuard() (bool, string) {
@@ -342,6 +344,10 @@ func detectChunkGuard() (bool, string) {
 			hdr := ast.Node(is.Cond)
 			if mentions(hdr, "AvailabilityTimeCompleteFlag") && mentions(hdr, "SegmentDurMS") && mentions(is.Body, "StatusBadRequest") {
 				found, how = true, "if !AvailabilityTimeCompleteFlag && !(ato >= 0 && ato*1000 < SegmentDurMS) -> 400"
+				if mentions(hdr, "Round") {
+					guardRounded = true
+					how = "if !AvailabilityTimeCompleteFlag && !(ato >= 0 && math.Round(ato*1000) < SegmentDurMS) -> 400"
+				}
 			}
 			return true
 		})
@@ -415,8 +421,14 @@ func (e *l1env) run(in c09in) (o c09obs) {
 	o.AtoMSChk = atoMSExact(in.Ato)
 	o.AtoMicro, o.AtoInf = atoMicro(in.Ato)
 	o.Outside = o.AtoInf || o.AtoMicro < 0 || o.AtoMicro >= o.SegDurMS*1000
+	// offsets less than half a millisecond below the segment duration round to it: no chunk duration either
+	o.Edge = !o.Outside && o.AtoMSInt >= o.SegDurMS
 	if f, err := strconv.ParseFloat(in.Ato, 64); err == nil {
-		o.GuardOK = f >= 0 && f*1000 < float64(o.SegDurMS)
+		if guardRounded {
+			o.GuardOK = f >= 0 && math.Round(f*1000) < float64(o.SegDurMS) // f0e7b4c
+		} else {
+			o.GuardOK = f >= 0 && f*1000 < float64(o.SegDurMS) // 6ca1ef6
+		}
 	}
 	o.AvailMS = in.StartS*1000 + ref.LoopE(in.Seg)*1000/ref.Timescale
 
@@ -512,6 +524,10 @@ func oracle(c *lib.Ctx, id string, in c09in, o c09obs) {
 			fail(key, fmt.Sprintf("chunked request with availabilityTimeOffset %s (segment duration %d ms) answered %d instead of 400", in.Ato, o.SegDurMS, o.HTTP))
 			return
 		}
+	}
+	if in.Kind == "l1" && o.Status == 4 && o.Edge {
+		c.Count("l1:refused-400-offset-rounds-to-the-segment-duration")
+		return
 	}
 	if in.Kind == "l1" && o.Status == 4 {
 		fail("refused-in-domain", fmt.Sprintf("chunked request with availabilityTimeOffset %s (0 <= ato < segment duration %d ms) answered 400: %s", in.Ato, o.SegDurMS, o.Err))
@@ -720,7 +736,7 @@ func c09term(i int, in c09in, o c09obs) string {
 		availMS, atoChk, atoInt, ts, segDur, startS = o.AvailMS, o.AtoMSChk, o.AtoMSInt, o.TS, o.SegDurMS, in.StartS
 	}
 	return fmt.Sprintf("{| c_id := %d; c_durs := %s; c_hasStyp := %s; c_newTime := %s; c_newNr := %d; c_newDur := %d; c_chunkDur := %s; "+
-		"c_segDurMS := %d; c_atoMS := %s; c_atoChk := %s; c_atoMicro := "+microTerm(o)+"; c_guard := "+lib.Cbool(guardDetected)+"; c_guardOK := "+lib.Cbool(o.GuardOK)+"; c_ts := %d; c_startS := %d; c_availMS := %s; c_nowMS := %d; o_status := %d; o_chunks := [%s]; o_writes := %s |}",
+		"c_segDurMS := %d; c_atoMS := %s; c_atoChk := %s; c_atoMicro := "+microTerm(o)+"; c_guard := "+lib.Cbool(guardDetected)+"; c_guardRounded := "+lib.Cbool(guardRounded)+"; c_guardOK := "+lib.Cbool(o.GuardOK)+"; c_ts := %d; c_startS := %d; c_availMS := %s; c_nowMS := %d; o_status := %d; o_chunks := [%s]; o_writes := %s |}",
 		i, lib.Zlist64(durs), lib.Cbool(o.WholeStyp), newTime, newNr, newDur, cd, segDur, lib.Zs(atoInt), lib.Zs(atoChk), ts, startS, lib.Zs(availMS), in.NowMS, o.Status,
 		strings.Join(chunks, "; "), lib.Zlist64(writes))
 }
